@@ -25,8 +25,7 @@ Fixpoint segs_eqb (a b : list text) : bool :=
 
 Definition equals_uri_nn (a b : uri) : bool :=
   range_eqb (scheme a) (scheme b)
-  (* the absolute-path flag is only compared when a has no scheme *)
-  && (is_some (scheme a) || Bool.eqb (absolutePath a) (absolutePath b))
+  && Bool.eqb (absolutePath a) (absolutePath b)
   && range_eqb (userInfo a) (userInfo b)
   && Bool.eqb (is_some (ip4 a)) (is_some (ip4 b))
   && Bool.eqb (is_some (ip6 a)) (is_some (ip6 b))
